@@ -10,6 +10,18 @@ from simkit.world import World
 
 ID = "C12"
 LEVEL = "exploration"
+TECHNIQUE = ("deterministic simulation: byte-level simulated tty + terminal responder with a "
+             "seeded reply schedule on a virtual clock; results compared with a profile-derived "
+             "reference model")
+LEVEL_TEXT = ("Seeded exploration of (terminal profile x reply schedule x operation order) worlds; "
+              "in each world the real query code runs against a simulated tty whose peer answers "
+              "per its profile with seeded delays, and every returned value, the leftover input "
+              "queue, the elapsed virtual time and the terminal attributes are checked after "
+              "every operation. Sampling, not proof: evidence for the sampled worlds.")
+LEVEL_NOTE = ("Trusted: the VTerm responder's reply formats, the SimTTY line discipline model "
+              "(ICANON/ECHO/VMIN/VTIME, TCSAFLUSH), FactsModel (documented memoisation rules). "
+              "Premise of the property is enforced by the generator (atomic FIFO replies, delay "
+              "< timeout).")
 TIERS = {
     "quick": {"runs": 4000, "max_ops": 10},
     "thorough": {"runs": 120000, "max_ops": 14, "wall_cap": 1500},
